@@ -137,7 +137,8 @@ class C16(Prop):
                 "dropna", "fillna", "setna", "interp_axis", "repeat", "broadcast", "put_copy", "median", "argmax", "rollaxis",
                 "unflatten", "flatten_rev", "flatten_apart", "flatten_insert", "mean_tuple_rev", "sum_tuple_last"]
     OPS_DROP = ["add", "mul_scalar", "rsub", "eq", "lt", "neg", "stack", "concatenate", "pow"]
-    OPS_AXIS_KEEP = ["axis_slice", "axis_list", "axis_reindex", "axis_take", "axis_sort", "axis_compress", "axis_transpose"]
+    OPS_AXIS_KEEP = ["axis_slice", "axis_list", "axis_reindex", "axis_take", "axis_sort", "axis_compress", "axis_transpose",
+                     "axis_reindex_axisobj", "axis_reindex_axisobj_present", "axis_reindex_like"]
 
     def gen(self, rng, tier):
         n = 400 if tier == "quick" else 6000
@@ -206,6 +207,9 @@ class C16(Prop):
                     "add": lambda: a + b, "mul_scalar": lambda: a * 2, "rsub": lambda: 1 - a, "pow": lambda: a ** 2, "eq": lambda: a == b.values,
                     "lt": lambda: a < 1, "neg": lambda: -a, "stack": lambda: da.stack([a, b], axis="s"), "concatenate": lambda: da.concatenate([a, b], axis="y"),
                     "axis_slice": lambda: a.ix[1:], "axis_list": lambda: a[[10, 30]], "axis_reindex": lambda: a.reindex_axis([10, 30, 40], axis="x"),
+                    "axis_reindex_axisobj": lambda: a.reindex_axis(Axis(np.array([10, 30, 40]), "x", units="requested"), axis="x"),
+                    "axis_reindex_axisobj_present": lambda: a.reindex_axis(Axis(np.array([30, 10]), "x", units="requested")),
+                    "axis_reindex_like": lambda: a.reindex_like(b.take([30, 10], axis="x")),
                     "axis_take": lambda: a.take_axis([30, 10], axis="x"), "axis_sort": lambda: a.sort_axis(axis="x"),
                     "axis_compress": lambda: a.compress_axis(np.array([True, False, True][:sizes[0]]), axis="x"),
                     "axis_transpose": lambda: a.transpose(list(reversed(names))),
